@@ -25,6 +25,11 @@ theorem paginate_eq {α β : Type} (l : List α) (pred : α → Bool × Bool) (t
   subst e1; subst e2
   simp [Go.paginate]
 
+theorem paginate_filter {α : Type} (l : List α) (pred : α → Bool × Bool) (tr : α → α × Bool)
+    (q : α → Bool) (hp : ∀ x, pred x = (q x, false)) (hf : ∀ x, tr x = (x, false)) :
+    Go.paginate l pred tr = (l.filter q, (), false) := by
+  rw [paginate_eq l pred tr q (fun x => x) hp hf, List.map_id']
+
 theorem bidsOf_storeOf (s : Core) (aid : Nat) :
     GStore.bidsOf (storeOf s) (aid : Int) = ((s.views[aid]?).map (·.bids)).getD [] := by
   simp [GStore.bidsOf, GStore.viewAt, storeOf]
@@ -39,6 +44,13 @@ theorem paginate_all {α β : Type} (l : List α) (tr : α → β × Bool)
   subst e2
   have : List.filter (fun _ : α => true) l = l := List.filter_eq_self.2 (by simp)
   simp [Go.paginate, this]
+
+/-- a listing without a filter: every record, whatever closures spell "keep it, as it is" -/
+theorem paginate_true {α : Type} (l : List α) (pred : α → Bool × Bool) (tr : α → α × Bool)
+    (hp : ∀ x, pred x = (true, false)) (hf : ∀ x, tr x = (x, false)) :
+    Go.paginate l pred tr = (l, (), false) := by
+  rw [paginate_filter l pred tr (fun _ => true) hp hf]
+  simp
 
 theorem getAllowed_aux (x : Option Allowed) (n : Nat) (st : GStore) :
     (if x.isNone = true then
@@ -61,6 +73,27 @@ theorem getBid_aux (x : Option Bid) (st : GStore) :
      | none => (none, true, st)) := by
   cases x <;> simp
 
+/-- the filter of a `ListBid` request -/
+def bidFilter (bidder : Option Acc) (matched : Option Bool) (b : Bid) : Bool :=
+  (match bidder with | some u => b.bidder == u | none => true)
+  && (match matched with | some m => b.matched == m | none => true)
+
+theorem queryBids_eq (s : Core) (aid : Nat) (bidder : Option Acc) (matched : Option Bool) :
+    queryBids s aid bidder matched =
+      List.filter (bidFilter bidder matched) (GStore.bidsOf (storeOf s) (aid : Int)) := by
+  simp only [bidsOf_storeOf, queryBids]
+  cases s.views[aid]? with
+  | none => rfl
+  | some v => rfl
+
+/-- the filter of a `ListAuction` request -/
+def aucFilter (st : Option Status) (ty : Option AType) (a : Auction) : Bool :=
+  (match st with | some x => a.status == x | none => true)
+  && (match ty with | some x => a.type == x | none => true)
+
+theorem queryAuctions_eq (s : Core) (st : Option Status) (ty : Option AType) :
+    queryAuctions s st ty = List.filter (aucFilter st ty) (GStore.allAuctions (storeOf s)) := rfl
+
 end TieQueries
 open TieQueries
 
@@ -69,48 +102,31 @@ theorem tie_Query_ListBid (s : Core) (aid : Nat) (bidder : Option Acc) (matched 
     (hb : ∀ u, bidder = some u → validAcc u = true) :
     Gen.Query_ListBid ⟨aid, bidder, matched.map BoolStr.is⟩ (storeOf s) =
       (some ⟨queryBids s aid bidder matched⟩, false, storeOf s) := by
-  have hv := bidsOf_storeOf s aid
-  cases bidder with
-  | none =>
-    cases matched with
-    | none =>
-      have e := paginate_eq (GStore.bidsOf (storeOf s) (aid : Int))
-        (fun v__ => Query_ListBid.pred1 false ⟨aid, none, none⟩ v__) (fun v__ => Query_ListBid.transform2 v__)
-        (fun _ => true) id (by intro x; simp [Query_ListBid.pred1]) (by intro x; rfl)
-      simp only [Gen.Query_ListBid, Option.map, Option.isNone, Bool.not_true, Bool.false_eq_true, if_false, e]
-      simp only [hv, queryBids]
-      cases s.views[aid]? <;> simp
-    | some m =>
-      have e := paginate_eq (GStore.bidsOf (storeOf s) (aid : Int))
-        (fun v__ => Query_ListBid.pred3 m ⟨aid, none, some (BoolStr.is m)⟩ v__) (fun v__ => Query_ListBid.transform4 v__)
-        (fun b => b.matched == m) id
-        (by intro x; by_cases h : x.matched = m <;> simp [Query_ListBid.pred3, h]) (by intro x; rfl)
-      simp only [Gen.Query_ListBid, Option.map, Option.isNone, Bool.not_true, Bool.not_false, Bool.false_eq_true,
-        if_false, if_true, Go.parseBoolStr, e]
-      simp only [hv, queryBids]
-      cases s.views[aid]? <;> simp
-  | some u =>
-    have hu : validAcc u = true := hb u rfl
-    cases matched with
-    | none =>
-      have e := paginate_eq (GStore.bidsOf (storeOf s) (aid : Int))
-        (fun v__ => Query_ListBid.pred5 false ⟨aid, some u, none⟩ v__) (fun v__ => Query_ListBid.transform6 v__)
-        (fun b => b.bidder == u) id
-        (by intro x; by_cases h : x.bidder = u <;> simp [Query_ListBid.pred5, h]) (by intro x; rfl)
-      simp only [Gen.Query_ListBid, Option.map, Option.isNone, Bool.not_true, Bool.not_false, Bool.false_eq_true,
-        if_false, if_true, Go.optAccParse, hu, e]
-      simp only [hv, queryBids]
-      cases s.views[aid]? <;> simp
-    | some m =>
-      have e := paginate_eq (GStore.bidsOf (storeOf s) (aid : Int))
-        (fun v__ => Query_ListBid.pred7 m ⟨aid, some u, some (BoolStr.is m)⟩ v__) (fun v__ => Query_ListBid.transform8 v__)
-        (fun b => b.bidder == u && b.matched == m) id
-        (by intro x; by_cases h : x.bidder = u <;> by_cases h' : x.matched = m <;> simp [Query_ListBid.pred7, h, h'])
-        (by intro x; rfl)
-      simp only [Gen.Query_ListBid, Option.map, Option.isNone, Bool.not_true, Bool.not_false, Bool.false_eq_true,
-        if_false, if_true, Go.optAccParse, hu, Go.parseBoolStr, e]
-      simp only [hv, queryBids]
-      cases s.views[aid]? <;> simp
+  rw [queryBids_eq]
+  -- by cases on the REQUEST first; then whatever closures the handler hands to the paginator
+  -- are shown to compute `bidFilter` of that request, record field by record field
+  rcases bidder with _ | u <;> rcases matched with _ | m
+  · simp only [Gen.Query_ListBid, Option.map, Option.isNone, Bool.not_true, Bool.false_eq_true, if_false]
+    rw [paginate_filter _ _ _ (bidFilter none none) ?_ (fun _ => rfl)]
+    · rfl
+    · intro x; simp [bidFilter]
+  · simp only [Gen.Query_ListBid, Option.map, Option.isNone, Bool.not_true, Bool.not_false, Bool.false_eq_true,
+      if_false, if_true, Go.parseBoolStr]
+    rw [paginate_filter _ _ _ (bidFilter none (some m)) ?_ (fun _ => rfl)]
+    · rfl
+    · intro x; by_cases h2 : x.matched = m <;> simp [bidFilter, h2]
+  · have hu : validAcc u = true := hb u rfl
+    simp only [Gen.Query_ListBid, Option.map, Option.isNone, Bool.not_true, Bool.not_false, Bool.false_eq_true,
+      if_false, if_true, Go.optAccParse, hu]
+    rw [paginate_filter _ _ _ (bidFilter (some u) none) ?_ (fun _ => rfl)]
+    · rfl
+    · intro x; by_cases h1 : x.bidder = u <;> simp [bidFilter, h1]
+  · have hu : validAcc u = true := hb u rfl
+    simp only [Gen.Query_ListBid, Option.map, Option.isNone, Bool.not_true, Bool.not_false, Bool.false_eq_true,
+      if_false, if_true, Go.optAccParse, hu, Go.parseBoolStr]
+    rw [paginate_filter _ _ _ (bidFilter (some u) (some m)) ?_ (fun _ => rfl)]
+    · rfl
+    · intro x; by_cases h1 : x.bidder = u <;> by_cases h2 : x.matched = m <;> simp [bidFilter, h1, h2]
 
 /-- **ListBid**, malformed request: a bidder string that is not an address, or an `is_matched`
     that is not a boolean literal, is refused -/
@@ -143,38 +159,30 @@ theorem tie_Query_GetBid (s : Core) (aid bidId : Nat) :
 theorem tie_Query_ListAuction (s : Core) (st : Option Status) (ty : Option AType) :
     Gen.Query_ListAuction ⟨st.map StatusStr.is, ty.map ATypeStr.is⟩ (storeOf s) =
       (some ⟨queryAuctions s st ty⟩, false, storeOf s) := by
-  have e := paginate_eq (GStore.allAuctions (storeOf s))
-    (fun v__ => Query_ListAuction.pred1 ⟨st.map StatusStr.is, ty.map ATypeStr.is⟩ v__)
-    (fun v__ => Query_ListAuction.transform2 v__)
-    (fun a => (match st with | some x => a.status == x | none => true)
-      && (match ty with | some x => a.type == x | none => true)) id
-    (by
-      intro x
-      cases st <;> cases ty <;> simp [Query_ListAuction.pred1]
-      all_goals (try split) <;> (try split) <;> simp_all)
-    (by intro x; rfl)
-  -- the guards that refuse malformed strings let every well-formed request through: by cases
-  -- on the request, whatever way the code spells the test (a chain of ==, a switch, a helper)
-  have hq : (List.map id (List.filter (fun a => (match st with | some x => a.status == x | none => true)
-      && (match ty with | some x => a.type == x | none => true)) (GStore.allAuctions (storeOf s)))) = queryAuctions s st ty := by
-    simp only [GStore.allAuctions, storeOf, queryAuctions, List.map_id]
-    rfl
-  simp only [Gen.Query_ListAuction, e, hq]
-  rcases st with _ | st <;> rcases ty with _ | ty <;> (try cases st) <;> (try cases ty) <;> simp
+  rw [queryAuctions_eq]
+  -- whatever closures the handler hands to the paginator: if they compute `aucFilter` …
+  have hpag := fun p t => paginate_filter (GStore.allAuctions (storeOf s)) p t (aucFilter st ty)
+  -- by cases on the REQUEST first.  The guards that refuse malformed strings are then closed
+  -- boolean terms, whatever way the code spells the test (a chain of ==, a switch, a helper that
+  -- walks a table): they are evaluated.  The filter is compared record field by record field.
+  rcases st with _ | st <;> rcases ty with _ | ty <;> (try cases st) <;> (try cases ty) <;>
+    (simp (config := { decide := true }) only [Gen.Query_ListAuction, Option.map]
+     rw [hpag _ _ ?_ (fun _ => rfl)]
+     · rfl
+     · intro x
+       cases hS : x.status <;> cases hT : x.type <;> simp [aucFilter, hS, hT])
 
 /-- **ListAuction**, a status or type string that names no status / type is refused -/
 theorem tie_Query_ListAuction_malformed (s : Core) (st : Option StatusStr) (ty : Option ATypeStr)
     (h : st = some StatusStr.junk ∨ ty = some ATypeStr.junk) :
     (Gen.Query_ListAuction ⟨st, ty⟩ (storeOf s)).1 = none ∧
     (Gen.Query_ListAuction ⟨st, ty⟩ (storeOf s)).2.1 = true := by
+  -- by cases on the request: the guards are then closed boolean terms and are evaluated
   rcases h with rfl | rfl
-  · cases ty with
-    | none => simp [Gen.Query_ListAuction]
-    | some t =>
-      cases t with
-      | junk => simp [Gen.Query_ListAuction]
-      | is t => cases t <;> simp [Gen.Query_ListAuction]
-  · simp [Gen.Query_ListAuction]
+  · rcases ty with _ | _ | ty <;> (try cases ty) <;>
+      simp (config := { decide := true }) only [Gen.Query_ListAuction] <;> simp
+  · rcases st with _ | _ | st <;> (try cases st) <;>
+      simp (config := { decide := true }) only [Gen.Query_ListAuction] <;> simp
 
 /-- **GetAuction** -/
 theorem tie_Query_GetAuction (s : Core) (aid : Nat) :
@@ -212,9 +220,9 @@ theorem tie_Query_ListAllowedBidder (s : Core) (aid : Nat) :
      ((Gen.Query_ListAllowedBidder ⟨aid⟩ (storeOf s)).1.map
         (fun r => r.allowed.map (fun x => (x.recAuction, ({ bidder := x.bidder, cap := x.cap } : Allowed))))) =
       some (queryAllowedOf s aid)) := by
-  have e := fun l => paginate_all (α := AllowedArg) l (fun v__ => Query_ListAllowedBidder.transform1 v__) id
-    (by intro x; rfl)
-  simp only [Gen.Query_ListAllowedBidder, e, Bool.false_eq_true, if_false, List.map_id, Option.map_some, true_and]
+  simp only [Gen.Query_ListAllowedBidder]
+  rw [paginate_true _ _ _ (fun _ => rfl) (fun _ => rfl)]
+  simp only [Bool.false_eq_true, if_false, Option.map_some, true_and]
   first
   | (left
      simp only [GStore.allAllowed, storeOf, queryAllowedAll, List.map_flatMap, List.map_map]
@@ -248,9 +256,9 @@ set_option linter.unusedSimpArgs false in -- the branch of `first` that does not
 theorem tie_Query_ListVestingQueue (s : Core) (aid : Nat) :
     Gen.Query_ListVestingQueue ⟨aid⟩ (storeOf s) = (some ⟨queryVestingsAll s⟩, false, storeOf s) ∨
     Gen.Query_ListVestingQueue ⟨aid⟩ (storeOf s) = (some ⟨queryVestingsOf s aid⟩, false, storeOf s) := by
-  have e := fun l => paginate_all (α := VQ) l (fun v__ => Query_ListVestingQueue.transform1 v__) id
-    (by intro x; rfl)
-  simp only [Gen.Query_ListVestingQueue, e, Bool.false_eq_true, if_false, List.map_id]
+  simp only [Gen.Query_ListVestingQueue]
+  rw [paginate_true _ _ _ (fun _ => rfl) (fun _ => rfl)]
+  simp only [Bool.false_eq_true, if_false]
   first
   | (left
      simp only [GStore.allVqs, storeOf, queryVestingsAll]
